@@ -111,6 +111,7 @@ func init() {
 
 func runC03(c *Ctx) {
 	defer c.tokenBuffer("R03.5", "html")
+	defer c.alsoUnder(map[string]string{"R13.1": "R03.24"}, func(construct string) bool { return strings.Contains(construct, "html.") || strings.HasPrefix(construct, "floor/") }, func() { c.r131() })
 	defer c.r036()
 	defer c.r037()
 	pk := c.pkg("R03", "html")
@@ -134,6 +135,7 @@ func runC03(c *Ctx) {
 	c.r0320(pk, fd)
 	c.r0321(pk, fd)
 	c.r0322(pk, fd)
+	c.r0323(pk, fd)
 	// an attribute wrongly marked boolean loses its value: the table check of C17, restricted to the attribute traits
 	// an attribute value that holds code decodes to the same value only if the code was minified as the browser reads it
 	c.alsoUnder(map[string]string{"R11.9": "R03.16"}, nil, func() { c.r119() })
@@ -1739,4 +1741,73 @@ func (c *Ctx) r0322(pk *packages.Package, fd *ast.FuncDecl) {
 	c.R.Check(len(bad) == 0, rule, "html.Minifier.Minify/state of an open table part is not a single boolean", c.pos(fd), fmt.Sprintf("%d booleans are cleared on a table tag, none is set on an element that can hold a table", n),
 		"a boolean records an open part of a table across tokens and is cleared by any table tag: "+strings.Join(bad, "; ")+" — the end tag of a table nested in a cell clears what the outer table still needs, and a decision that reads it (an omitted `<tbody>`) is taken for the wrong table")
 	c.R.Floor(rule, "booleans cleared on a table tag", n, 1)
+}
+
+// R03.23: the end tag of a colgroup stays in front of what would otherwise join it.
+func (c *Ctx) r0323(pk *packages.Package, fd *ast.FuncDecl) {
+	const rule = "R03.23"
+	c.R.Rule(rule, "HTML §13.2.6.4.12 `in column group`: while a colgroup is open a col start tag is inserted into it, and a colgroup start tag closes it only to open the next. `<colgroup></colgroup><col>` are two column groups (the second is implied by the col); without the end tag the col joins the first. Where html.(*Minifier).Minify decides to keep an attribute-less colgroup end tag from the token that follows (an assignment of a comparison of that token's Hash with Colgroup), the value is evaluated with the hash constants: it holds for a following colgroup start tag and for a following col start tag")
+	info := pk.TypesInfo
+	val := map[string]int64{}
+	for _, p := range []string{"Col", "Colgroup", "Tr"} {
+		k, ok := pk.Types.Scope().Lookup(p).(*types.Const)
+		if !ok {
+			c.R.Unres(rule, "html hash constant "+p, c.pos(fd), "constant not found")
+			return
+		}
+		v, _ := constant.Int64Val(k.Val())
+		val[p] = v
+	}
+	n := 0
+	ast.Inspect(fd.Body, func(x ast.Node) bool {
+		as, ok := x.(*ast.AssignStmt)
+		if !ok || len(as.Lhs) != 1 || len(as.Rhs) != 1 {
+			return true
+		}
+		if t := info.TypeOf(as.Lhs[0]); t == nil || !isBoolType(t) {
+			return true
+		}
+		rhs := as.Rhs[0]
+		// a comparison `X.Hash == Colgroup` (not `!=`: that is the start tag's verdict) on a token other than the current one
+		next := ""
+		var startTag int64 = -1
+		ast.Inspect(rhs, func(z ast.Node) bool {
+			switch v := z.(type) {
+			case *ast.BinaryExpr:
+				if v.Op == token.EQL {
+					if sel, ok := ast.Unparen(v.X).(*ast.SelectorExpr); ok && sel.Sel.Name == "Hash" {
+						if id, ok := ast.Unparen(v.Y).(*ast.Ident); ok && id.Name == "Colgroup" {
+							next = nospace(str(sel.X))
+						}
+					}
+				}
+			case *ast.SelectorExpr:
+				if v.Sel.Name == "StartTagToken" {
+					if k, isK := intConst(info, v); isK {
+						startTag = k
+					}
+				}
+			}
+			return true
+		})
+		if next == "" || next == "t" || startTag < 0 {
+			return true
+		}
+		n++
+		var bad []string
+		for _, el := range []string{"Colgroup", "Col"} {
+			v, ok := evalIntExpr(info, rhs, map[string]int64{next + ".Hash": val[el], next + ".TokenType": startTag})
+			if !ok {
+				c.R.Unres(rule, fmt.Sprintf("html.Minifier.Minify/colgroup end tag kept#%d", n), c.pos(as), "the value could not be evaluated for a following "+strings.ToLower(el))
+				return true
+			}
+			if v == 0 {
+				bad = append(bad, "<"+strings.ToLower(el)+">")
+			}
+		}
+		c.R.Check(len(bad) == 0, rule, fmt.Sprintf("html.Minifier.Minify/colgroup end tag kept#%d in front of colgroup and col", n), c.pos(as), "evaluated for both start tags",
+			"the end tag of a colgroup is dropped in front of "+strings.Join(bad, ", ")+": `<table><colgroup></colgroup><col></table>` becomes `<table><colgroup><col></table>`, in which the col is a child of the first column group")
+		return true
+	})
+	c.R.Floor(rule, "verdicts on a colgroup end tag", n, 1)
 }
